@@ -128,8 +128,10 @@ def rule_tombstone_first(chk, rid):
     chk.ob(rid, f"{ov.qual}.keys", ".difference(self.removed)" in U(ks) or "- self.removed" in U(ks), "keys() subtracts the tombstones", ks, mod, key="keys-minus-removed")
     chk.ob(rid, f"{ov.qual}.keys", "self.overlay.keys()" in U(ks) and "self.fallback.keys()" in U(ks), "keys() unions both layers", ks, mod, key="keys-union")
     ld = ov.methods.get("listdir")
-    comps = [c for c in ast.walk(ld) if isinstance(c, ast.ListComp)]
-    ok = any("not in self.removed" in U(i) and ("join_key(" in U(i)) for c in comps for g in c.generators for i in g.ifs)
+    # a membership test against the tombstone set whose left side is join_key(<dir>, <name>) - in a comprehension filter or an if
+    tests_ = [c for c in ast.walk(ld) if isinstance(c, ast.Compare) and len(c.ops) == 1 and isinstance(c.ops[0], (ast.NotIn, ast.In))
+              and U(c.comparators[0]) == "self.removed"]
+    ok = bool(tests_) and all(isinstance(c.left, ast.Call) and call_name(c.left) == "join_key" and len(c.left.args) == 2 for c in tests_)
     chk.ob(rid, f"{ov.qual}.listdir", ok, "listing filters tombstones with join_key(key, name) (correct at the root)" if ok else
            "listing filter does not use the empty-parent idiom: tombstones are ignored at the root", ld, mod, key="listdir-tombstones")
     chk.ob(rid, f"{ov.qual}.listdir", "self.overlay.listdir(key)" in U(ld) and "self.fallback.listdir(key)" in U(ld), "listdir unions both layers", ld, mod, key="listdir-union")
